@@ -35,6 +35,12 @@ def gen_case(rng: random.Random, tier: str) -> dict:
     if fns and rng.random() < 0.35:
         nd, _d = rng.choice(fns)
         faults.append({"kind": "raise", "node": nd["name"], "inv": 0, "when": rng.choice(["before", "after"]), "fid": 0, "exc": rng.choice(gen.EXC_KINDS)})
+    from hgsim.spec import iter_nodes as _iter_nodes
+
+    for nd, _d, _p in _iter_nodes(g):
+        # decisions whose payload is unusual for the event builders: a multi-target gate answering None / [] every time
+        if nd["kind"] == "route" and nd.get("multi") and not nd.get("blk") and rng.random() < 0.5:
+            nd["decide"] = {"op": "const", "value": rng.choice([None, None, []])}
     ext = [e for e in g["ext"] if e not in g["lists"]]
     cfg = gen.gen_async_cfg(rng, allow_hold=False)
     cfg["shuffle"] = None
